@@ -334,6 +334,7 @@ type c16Obs struct {
 	Out   string
 	Trace []string
 	ID    int // model identity of the returned template (0 = none)
+	Loaded bool // GetTemplate / Parse itself succeeded (OK also covers the execution that follows)
 }
 
 func (o c16Obs) String() string {
@@ -395,6 +396,7 @@ func (im *c16Impl) step(op c16Op) (got c16Obs, ptr *jet.Template) {
 	im.ld.mu.Unlock()
 	finish := func(t *jet.Template, err error) (c16Obs, *jet.Template) {
 		var o c16Obs
+		o.Loaded = err == nil && t != nil
 		if err == nil && t != nil {
 			var buf bytes.Buffer
 			func() {
@@ -529,10 +531,9 @@ func c16Replay(cfg c16Cfg, hist []c16Op) (*c16Model, *c16Case) {
 				if ptr != first || touched {
 					return ms[0], fail(i, c16Obs{OK: true}, got, "GetTemplate of a remembered name touched the loader or returned a different *Template")
 				}
-			} else if got.OK || ptr != nil {
-				if ptr != nil {
-					remembered[op.Path] = ptr
-				}
+			} else if got.Loaded && ptr != nil {
+				// only a *successful* GetTemplate is remembered (a failed parse hands back a template too)
+				remembered[op.Path] = ptr
 			}
 		}
 		var lastWant c16Obs
